@@ -1,0 +1,35 @@
+//go:build verif
+
+package kafka
+
+import (
+	"github.com/segmentio/kafka-go/protocol"
+	meta "github.com/segmentio/kafka-go/protocol/metadata"
+)
+
+// Hooks for the /verif harness (build tag `verif` only), properties C12/C19: accessors to the
+// unexported pure helpers of transport.go.
+
+// VerifMakeLayout exposes makeLayout.
+func VerifMakeLayout(m *meta.Response) protocol.Cluster { return makeLayout(m) }
+
+// VerifFilterMetadataResponse exposes filterMetadataResponse.
+func VerifFilterMetadataResponse(req *meta.Request, res *meta.Response) *meta.Response {
+	return filterMetadataResponse(req, res)
+}
+
+// VerifFindMetadataTopic exposes findMetadataTopic.
+func VerifFindMetadataTopic(topics []meta.ResponseTopic, name string) (int, bool) {
+	return findMetadataTopic(topics, name)
+}
+
+// VerifNormalizeMetadata applies the normalisation (*connPool).update performs before caching a
+// metadata response (throttle cleared, brokers/topics/partitions sorted).
+func VerifNormalizeMetadata(m *meta.Response) {
+	m.ThrottleTimeMs = 0
+	sortMetadataBrokers(m.Brokers)
+	sortMetadataTopics(m.Topics)
+	for i := range m.Topics {
+		sortMetadataPartitions(m.Topics[i].Partitions)
+	}
+}
